@@ -55,4 +55,11 @@ def witC11 : List (Nat × List Op) := [
   (555, [.add 1 32 none, .rm 1])
 ]
 -- W-C11-arrow, W-C11-credit, W-C11-direction-type, W-C11-interchangeable, W-C11-key, W-C11-lyric, W-C11-metronome, W-C11-note, W-C11-part-list, W-C11-sound, W-C11-swing, W-C11-time
+def witC12 : List (Nat × List Op) := [
+  (482, [.add 1 57 none, .add 2 40 none]),
+  (504, [.add 1 180 none]),
+  (507, [.add 1 101 none]),
+  (511, [.add 1 208 none, .add 2 208 none, .add 3 209 none])
+]
+-- W-C12-credit, W-C12-key, W-C12-lyric, W-C12-metronome
 end Gen
